@@ -7,7 +7,7 @@ set -u
 NAME=$1; WT=$2; shift 2; PROPS="$@"
 OUT=/verif/seeded/$NAME; mkdir -p $OUT
 cd $WT || exit 2
-git diff -- kingdon > $OUT/patch.diff
+git add -N kingdon; git diff -- kingdon > $OUT/patch.diff
 [ -s $OUT/patch.diff ] || { [ -f $WT/patch.diff ] && cp $WT/patch.diff $OUT/patch.diff && git apply $OUT/patch.diff; }
 cp $WT/demo.py $OUT/demo.py 2>/dev/null
 cp $WT/notes.md $OUT/notes.md 2>/dev/null
